@@ -174,7 +174,9 @@ thread_local! {
 }
 
 const NONE: usize = usize::MAX;
-const WATCHDOG: Duration = Duration::from_secs(60);
+/// seconds without a scheduling point after which an execution is given up as a machinery error (default 60;
+/// cases that run billions of closure-free iterations between two points raise it)
+pub static WATCHDOG_S: std::sync::atomic::AtomicU64 = std::sync::atomic::AtomicU64::new(60);
 
 fn lock() -> MutexGuard<'static, Option<Exec>> {
     SCHED.lock().unwrap_or_else(|e| e.into_inner())
@@ -290,8 +292,9 @@ fn wait_cv<'a>(g: MutexGuard<'a, Option<Exec>>) -> MutexGuard<'a, Option<Exec>> 
     let (g, to) = CV.wait_timeout(g, Duration::from_millis(1000)).unwrap_or_else(|e| e.into_inner());
     if to.timed_out() {
         if let Some(ex) = g.as_ref() {
-            if ex.last_event.elapsed() > WATCHDOG {
-                machinery_error("watchdog: the running thread reached no scheduling point for 60 s");
+            let limit = WATCHDOG_S.load(std::sync::atomic::Ordering::SeqCst);
+            if ex.last_event.elapsed() > Duration::from_secs(limit) {
+                machinery_error(&format!("watchdog: the running thread reached no scheduling point for {} s", limit));
             }
         }
     }
